@@ -3,7 +3,7 @@
 # Fresh scratch worktree of /repo HEAD, apply the patch, run the complete baseline suite, compare with the 75 stable tests,
 # write <seed dir>/.suite.txt, remove the worktree.
 d="$1"; name=$(basename "$d"); wt="/tmp/fs_${name}_$$"
-git -C /repo worktree add -q --detach "$wt" HEAD || exit 2
+flock /tmp/.wt.lock git -C /repo worktree add -q --detach "$wt" HEAD || { echo "$name: worktree add failed"; exit 2; }
 cd "$wt" && git apply "$d/patch.diff" || { echo "PATCH-FAIL" > "$d/.suite.txt"; git -C /repo worktree remove --force "$wt"; exit 1; }
 PYTHONPATH="$wt" /venv/bin/python -m pytest -ra -q -p no:cacheprovider --timeout=900 --continue-on-collection-errors --junitxml="$wt/junit.xml" > "$wt/pytest.log" 2>&1
 /venv/bin/python - "$wt/junit.xml" > "$d/.suite.txt" <<'PY'
@@ -19,5 +19,5 @@ for m in missing:
     print("BROKEN", m)
 PY
 tail -3 "$wt/pytest.log" >> "$d/.suite.txt"
-cd /tmp; git -C /repo worktree remove --force "$wt"
+cd /tmp; flock /tmp/.wt.lock git -C /repo worktree remove --force "$wt"
 echo "$name: $(head -1 $d/.suite.txt)"
